@@ -190,6 +190,16 @@ def r3(ctx: Ctx, rep: Report, fams: Dict[str, Family]):
             elif ok and isinstance(req, ast.JoinedStr):
                 names = [v.value.id for v in req.values if isinstance(v, ast.FormattedValue) and isinstance(v.value, ast.Name)]
                 ok = off_arg.id in names
+            # single-register writes: the value the validator will compare the echo with is the value put on the wire
+            if fam.kind != "aa55" and isinstance(req, ast.Call) and "value" in init.params:
+                ctv = res.resolve_call(req, sinit)
+                if ctv.funcs and "value" in ctv.funcs[0].params:
+                    sent, expected = arg_for(req, ctv.funcs[0], "value"), arg_for(sup[0], init, "value")
+                    okv = sent is not None and expected is not None and norm(sent) == norm(expected)
+                    rep.check(okv, "C02.R5", "wire-value:%s" % sub.name, sinit.loc(sup[0]),
+                              "%s expects the echo of exactly the value it sends (%s)" % (sub.name, norm(sent) if sent is not None else "?"),
+                              bad="%s sends %s but tells the validator to expect %s: for values where the two differ (negative numbers as two's complement) the inverter's correct echo is refused" % (
+                                  sub.name, norm(sent) if sent is not None else "?", norm(expected) if expected is not None else "?"))
             rep.check(ok, "C02.R3", "wire-register:%s" % sub.name, sinit.loc(sup[0]),
                       "%s puts the same register on the wire that it records as first_address / expects echoed" % sub.name,
                       bad="%s: register sent (%s) and register recorded (%s) differ" % (sub.name, norm(wire) if wire is not None else "?", norm(off_arg) if off_arg is not None else "?"))
